@@ -271,14 +271,25 @@ class _iadd_array:
         return Not(o.switch)
 
 
-@contract(HB + ".frequencies", props=["C19", "C18"], name=HB + ".frequencies[setter, negative contents]")
+@contract(HB + ".frequencies", props=["C19", "C18", "C13"], name=HB + ".frequencies[setter, negative contents]")
 class _freq_setter:
     bounded = True
     bound_note = "guards: 1D histogram with 2 bins; new contents and switch value symbolic"
 
+    def configs():
+        # (histogram dtype, dtype of the assigned values): the reported dtype stays the element type of the contents
+        return [{"d": "float64", "v": "float64"}, {"d": "int64", "v": "float64"}, {"d": "float64", "v": "int64"}, {"d": "int16", "v": "int64"}]
+
     def inputs(b):
-        me = mk_hist(b, "h", 1, 2, "gapped", "float64")
-        return dict(self=me, values=b.array("x", (2,)), switch=b.bool("switch"), config=b.module_attr("physt.config", "config"))
+        me = mk_hist(b, "h", 1, 2, "gapped", b.cfg.d)
+        return dict(self=me, values=b.array("x", (2,), b.cfg.v), switch=b.bool("switch"), config=b.module_attr("physt.config", "config"))
+
+    @ensures("dtype_stays_the_element_type_of_contents_and_errors_widened_never_narrowed")
+    def _(a, old, result):
+        from .fill import dtype_consistent
+        import numpy as np
+        return And(dtype_consistent(a.self), attr(a.self, "_dtype") == np.promote_types(attr(old.self, "_dtype"), dtype_of(old.values)),
+                   same(E(a.self), E(old.self)), same(M(a.self), M(old.self)))
 
     def invoke(I, fn, a, cfg):
         if I is not None:
